@@ -420,6 +420,132 @@ func (e *eng) runArgs(h string, a []string, r *run.Rand, pin string) {
 	for i := range modes {
 		e.judge(&modes[i], a, ex)
 	}
+	// one value however the arguments are supplied: a helper's result is a function of its argument values, so the constant
+	// rendering (folded at compile time) and the rendering through match groups must print the same text - also where the
+	// reference only brackets the result (rounding of a half, float formatting) or abstains
+	e.agree(&modes[0], &modes[1], a)
+}
+
+func (e *eng) agree(cc, cd *Case, a []string) {
+	c := e.c
+	tc, xc, ok1 := render(cc, a)
+	td, xd, ok2 := render(cd, a)
+	if !ok1 || !ok2 || tc == td {
+		return
+	}
+	oc, e1, p1, _, _ := e.eval(tc, xc, true)
+	od, e2, p2, _, _ := e.eval(td, xd, true)
+	if p1 || p2 || e1 != nil || e2 != nil || isMarker(oc) || isMarker(od) {
+		return // crashes and rejected arguments are judged by the single renderings
+	}
+	c.Count("const_vs_dynamic_compared", 1)
+	if oc != od {
+		fp := knownClass(cc.Helper, a)
+		if fp == "" {
+			fp = cc.Helper + "/const-vs-dynamic:" + run.Hash64(tc, strings.Join(xd.Elements, "\x00"))
+		}
+		c.Violation(fp, fmt.Sprintf("%s returns %s, but %s with match groups %q returns %s: same argument values, different result", run.Q(tc), run.Q(oc), run.Q(td), xd.Elements, run.Q(od)), cc)
+	}
+}
+
+// runSeq: one compiled expression, many rows. The usual way the helpers are used is with some arguments constant
+// ({substr {0} -2 2}, {percent {0} 0 776}) and the rest taken from each line: the template is compiled once and evaluated
+// on a sequence of rows. Every row must give what the documentation defines for THAT row's values - whatever rows came
+// before it (no state may leak from row to row), both on the first and on a second pass over the same rows.
+func (e *eng) runSeq(sp *spec, r *run.Rand) {
+	c := e.c
+	h := sp.helper
+	a0 := sp.gen(r)
+	if len(a0) == 0 {
+		return
+	}
+	mask := uint32(r.U64())
+	if r.Intn(2) == 0 {
+		mask = 1 // the common shape: the first argument from the line, the others constant
+	}
+	cs := &Case{Helper: h, Args: quoteAll(a0), Mode: "mixed", Mask: mask, Pin: "seq"}
+	tmpl0, _, ok := render(cs, a0)
+	if !ok || !strings.Contains(tmpl0, "{0}") && !strings.Contains(tmpl0, "{1}") && !strings.Contains(tmpl0, "{2}") {
+		return
+	}
+	type row struct {
+		a   []string
+		ctx *expressions.KeyBuilderContextArray
+	}
+	rows := []row{}
+	for k := 0; k < 6; k++ {
+		ak := append([]string(nil), a0...)
+		if k > 0 {
+			alt := sp.gen(r)
+			for i := range ak {
+				if mask&(1<<uint(i)) != 0 && !isConstPos(h, i) && i < len(alt) {
+					ak[i] = alt[i]
+				}
+			}
+		}
+		if cl := knownClass(h, ak); cl != "" && c.KnownActive(cl) {
+			continue
+		}
+		t, ctx, ok := render(cs, ak)
+		if !ok || t != tmpl0 {
+			continue
+		}
+		rows = append(rows, row{ak, ctx})
+	}
+	if len(rows) < 2 {
+		return
+	}
+	var ckb *expressions.CompiledKeyBuilder
+	pan, pv, _ := run.Guard(func() { ckb, _ = e.kbOpt.Compile(tmpl0) })
+	if pan || ckb == nil {
+		_ = pv
+		return // compile problems are judged by the single-row cases
+	}
+	c.Count("sequence_cases", 1)
+	for pass := 0; pass < 2; pass++ {
+		for k, rw := range rows {
+			ex := reference(h, rw.a)
+			if ex.ok == nil {
+				// the documentation does not say what these values give - but whatever it is, it is a function of the
+				// row's values: the same expression compiled afresh and given only this row is the reference
+				var fresh string
+				fp, _, _ := run.Guard(func() {
+					if f, _ := e.kbOpt.Compile(tmpl0); f != nil {
+						fresh = f.BuildKey(rw.ctx)
+					}
+				})
+				if fp {
+					continue
+				}
+				want := fresh
+				ex = exp{ok: func(o string) bool { return o == want }, desc: fmt.Sprintf("%s (what the same expression, compiled afresh, returns for this row alone)", run.Q(want))}
+				c.Count("sequence_rows_vs_fresh_compile", 1)
+			}
+			var out string
+			pan, pv, _ := run.Guard(func() { out = ckb.BuildKey(rw.ctx) })
+			c.Evals(1)
+			c.Count("sequence_rows_compared", 1)
+			if pan || !ex.ok(out) {
+				fp := knownClass(h, rw.a)
+				if fp == "" {
+					fp = h + "/sequence:" + run.Hash64(tmpl0, strings.Join(rw.ctx.Elements, "\x00"))
+				}
+				prev := "(first row)"
+				if k > 0 {
+					prev = fmt.Sprintf("%q", rows[k-1].ctx.Elements)
+				} else if pass > 0 {
+					prev = fmt.Sprintf("%q", rows[len(rows)-1].ctx.Elements)
+				}
+				got := run.Q(out)
+				if pan {
+					got = fmt.Sprintf("a panic (%v)", pv)
+				}
+				c.Violation(fp, fmt.Sprintf("%s compiled once and evaluated row after row: row %d of pass %d, match groups %q (previous row %s), returned %s; documented result: %s",
+					run.Q(tmpl0), k+1, pass+1, rw.ctx.Elements, prev, got, ex.desc), cs)
+				return
+			}
+		}
+	}
 }
 
 const block = 128
@@ -442,6 +568,9 @@ func (e *eng) runBlock(sp *spec, b, n int) {
 			c.Sample(map[string]any{"helper": sp.helper, "args": a})
 		}
 		e.runArgs(sp.helper, a, r, "")
+		if k%4 == 0 {
+			e.runSeq(sp, r)
+		}
 		if c.Violations() >= 20 {
 			return
 		}
